@@ -180,7 +180,9 @@ func rebootIncompleteBlobSize(key string, pather *pather) (size uint64, ok bool,
 	}
 	blobSize, err := strconv.Atoi(string(blobSizeData))
 	if err != nil {
-		return 0, false, fmt.Errorf("blob size sidecar file is in unexpected format: %w", err)
+		// The size sidecar is created and then written. A crash in between leaves it empty.
+		// Same as when it is missing: we fail-open by evicting the blob.
+		return 0, false, nil
 	}
 	return uint64(blobSize), true, nil
 }
